@@ -75,7 +75,7 @@ As4Cap(hl) == <<65, U32hl(hl)>>
 \* one capability of every kind the decoder interprets, plus unknown codes
 CapKinds(as) ==
    <<MP(1, 1), <<2, <<>>>>, <<128, <<>>>>, <<70, <<>>>>, <<64, <<0, 120>>>>, As4Cap(as), <<69, <<0, 1, 1, 3>>>>, <<5, <<0, 1, 0, 1, 0, 2>>>>,
-     <<71, <<0, 1, 1, 0, 0, 0, 60>>>>, <<131, <<>>>>, <<99, <<1, 2>>>>>>
+     <<71, <<0, 1, 1, 0, 0, 0, 60>>>>, <<131, <<>>>>, <<99, <<1, 2>>>>, <<6, <<>>>>>>      \* (6: a code without decoder and without value)
 MoreCaps(as) ==
    {MP(2, 1), MP(1, 128), MP(25, 70), MP(16388, 71), <<64, <<128, 0, 0, 1, 1, 128>>>>, <<69, <<0, 1, 1, 1, 0, 2, 1, 2>>>>,
     <<5, <<0, 1, 0, 1, 0, 2, 0, 1, 0, 128, 0, 2>>>>, <<71, <<0, 1, 1, 128, 255, 255, 255, 0, 2, 1, 0, 0, 0, 0>>>>, <<200, <<>>>>, <<0, <<7>>>>}
